@@ -156,6 +156,19 @@ def run_case(ctx, pydsdl, lay, workdir):
         ("ws-rel/abs-root", ws, [rel_to_ws], [rootdir], len(lay["prefix"]) == 0),
         ("ws-rel/no-roots", ws, [rel_to_ws], [], len(lay["prefix"]) == 0),
     ]
+    # the documentation's mixed form: one root by bare name, another root namespace by (multi-component) relative path
+    other_dir = ws.joinpath(*lay["prefix"], "otherroot")
+    (other_dir / "sub").mkdir(parents=True, exist_ok=True)
+    (other_dir / "sub" / "Oth.1.0.dsdl").write_text("@sealed\n")
+    rel_other_ws = Path(*lay["prefix"], "otherroot")
+    designs += [
+        ("ws-rel/[name-root,rel-other]", ws, [rel_to_ws], [lay["root"], rel_other_ws], True),
+        ("ws-rel/[rel-other,name-root]", ws, [rel_to_ws], [rel_other_ws, lay["root"]], True),
+        ("ws-rel/[rel-root,name-other]", ws, [rel_to_ws], [rel_root_ws, "otherroot"], True),
+        ("ws-rel/[rel-root,rel-other]", ws, [rel_to_ws], [rel_root_ws, rel_other_ws], True),
+        ("abs-target/[name-root,abs-other]", ws, [fpath], [lay["root"], other_dir], True),
+        ("abs-target/[abs-other,abs-root]", ws, [fpath], [other_dir, rootdir], True),
+    ]
     if nsdirs and not lay["malformed"] and nsdirs[-1] not in lay["prefix"] and nsdirs[-1] != lay["root"] and nsdirs[-1] not in ws.parts:
         # a namespace directory below the root that is itself named like another root in the list: the list order of the
         # bare names must not decide which directory becomes the root
